@@ -8,7 +8,7 @@ CONSTANTS
   Routes = {}
   Layouts = {"flat"}
   Slim = TRUE
-  HistKinds = {"list", "int", "paths"}
+  HistKinds = {"list", "int"}
   MaxLookups = 3
 INVARIANT HistoryHolds
 CHECK_DEADLOCK FALSE
